@@ -12,9 +12,13 @@
 // session r times and says so in the evidence.
 //
 // usage: mpirun -np h c19_partition SESSION_FILE RESULT_FILE [threads]
+#include "e4_pace.h" // timing-only shim, must precede every Galois header
+
 #include "e4_common.h"
 
 #include "galois/graphs/GluonSubstrate.h"
+#define E4_PACE_IMPL
+#include "e4_pace.h"
 
 template <typename EdgeData>
 static void run_case(const e4::Case& c, e4::Comm& comm, FILE* out) {
